@@ -91,6 +91,16 @@ fn chain2(vm: &mut Vm<Aux>, factory: Value, x: Value) -> NR {
     let c = reenter(vm, factory, &[])?;
     reenter(vm, c, &[x])
 }
+/// a host function that tries a failing callback once more before giving up (nil)
+fn retry1(vm: &mut Vm<Aux>, f: Value, a: Value) -> NR {
+    match reenter(vm, f, &[a]) {
+        Ok(v) => Ok(v),
+        Err(_) => match reenter(vm, f, &[a]) {
+            Ok(v) => Ok(v),
+            Err(_) => Ok(Value::Nil),
+        },
+    }
+}
 fn fail(vm: &mut Vm<Aux>) -> NR {
     vm.auxiliary_data.native_calls += 1;
     Err(ExecutionErrorPayload::invalid_argument("the host function failed on purpose"))
@@ -182,6 +192,7 @@ pub fn register_natives(vm: &mut Vm<Aux>) {
     vm.register_native_function("wrap4", into_f4(wrap4)).unwrap();
     vm.register_native_function("keep1", into_f2(keep1)).unwrap();
     vm.register_native_function("try1", into_f2(try1)).unwrap();
+    vm.register_native_function("retry1", into_f2(retry1)).unwrap();
     vm.register_native_function("chain2", into_f2(chain2)).unwrap();
     vm.register_native_function("concat", into_f2(concat)).unwrap();
 }
